@@ -185,6 +185,12 @@ def transition(root, hist):
             pass
     op = hist[-1]
     before = canon(model)
+    # the file route is exercised as "save, edit, save again to the same path": first save = the state before the edit
+    fn = tmpfile()
+    try:
+        cfg.to_yaml_file(fn)
+    except Exception:
+        pass
     mexc = model_apply(model, op)
     rexc = None
     try:
@@ -227,7 +233,6 @@ def transition(root, hist):
         for route in ('file', 'text'):
             try:
                 if route == 'file':
-                    fn = tmpfile()
                     cfg.to_yaml_file(fn)
                     back = S.SiftConfig.from_yaml_file(fn)
                 else:
@@ -247,13 +252,17 @@ def transition(root, hist):
                     kw = copy.deepcopy(model)
                     direct = call_variant(variant, x, **kw)
                     np.random.seed(9)
-                    reloaded = S.SiftConfig.from_yaml_file(tmpfile()).get_func()(x.copy())
+                    reloaded = S.SiftConfig.from_yaml_file(fn).get_func()(x.copy())
                     reloaded = np.asarray(reloaded[0] if isinstance(reloaded, tuple) else reloaded)
                 ntrans += 2
                 if direct.shape != reloaded.shape or not np.array_equal(direct, reloaded):
                     viols.append(('yaml:behaviour', '%s: callable from the reloaded config behaves differently from the direct call' % d))
             except Exception as e:
                 viols.append(('yaml:behaviour:raise', '%s: %r' % (d, e)))
+    try:
+        os.unlink(fn)
+    except OSError:
+        pass
     return history.Step(key, viols, transitions=ntrans, nontrivial=changed, cls='changed' if changed else 'unchanged')
 
 
